@@ -329,6 +329,52 @@ def conn_frames_of(stream):
     return out
 
 
+def ref_consumer(typ, v):
+    """Canonical Kafka encoding of the consumer-protocol values of wiredrv/marshal.go (hand-written here, independent of the library)."""
+    import struct
+    i16 = lambda x: struct.pack(">h", x)
+    i32 = lambda x: struct.pack(">i", x)
+    st = lambda x: i16(len(x)) + x.encode()
+    by = lambda b: i32(-1) if b is None else i32(len(b)) + bytes(b)
+    tps = lambda l: i32(len(l)) + b"".join(st(t) + i32(len(ps)) + b"".join(i32(p) for p in ps) for (t, ps) in l)
+    vals = [("Subscription", 0, i16(0) + i32(1) + st("t") + by(None)),
+            ("Subscription", 1, i16(1) + i32(3) + st("a") + st("bb") + st("") + by([1, 2, 3]) + tps([("a", [0, 2, 2147483647]), ("bb", [])])),
+            ("Assignment", 0, i16(0) + tps([("t", [0, 1])]) + by(None)),
+            ("Assignment", 1, i16(1) + tps([("x", [5]), ("y", [1, 2, 3])]) + by(b"user"))]
+    for (t, ver, b) in vals:
+        if (t, ver) == (typ, v):
+            return b.hex()
+    return None
+
+
+def run_marshal(ctx, d, binaries):
+    """protocol.Marshal / Unmarshal after failed uses of the pooled decoder (both builds): the encoding is the canonical one and
+    decoding it gives the value back whatever the decoder was used for before."""
+    n = bad = 0
+    for label, binary in binaries:
+        if not binary:
+            continue
+        outp = os.path.join(d, "marshal-%s.ndjson" % label)
+        p = subprocess.run([binary, "wire", "-mode", "marshal", "-out", outp], capture_output=True, text=True, timeout=300)
+        if p.returncode != 0:
+            raise Inconclusive("vh wire -mode marshal failed (%s): %s" % (label, (p.stderr or p.stdout)[-800:]))
+        for r in read_ndjson(outp):
+            n += 1
+            why = None
+            if not r["ok"]:
+                why = r["detail"]
+            elif r["hex"] != ref_consumer(r["type"], r["v"]):
+                why = "Marshal wrote %s, the canonical encoding is %s" % (r["hex"], ref_consumer(r["type"], r["v"]))
+            if why:
+                bad += 1
+                if bad <= 6:
+                    key = "C04 marshal type=%s v=%d after=%s build=%s" % (r["type"], r["v"], r["pre"], label)
+                    rep = ctx.save_replay("marshal-%s-v%d-%s-%s" % (r["type"], r["v"], r["pre"], label), [("result.json", json.dumps(r, indent=1))])
+                    ctx.violation("%s | consumer protocol %s v%d, after an earlier use of the pooled decoder that %s: %s" % (
+                        key, r["type"], r["v"], {"none": "did not happen"}.get(r["pre"], "failed (" + r["pre"] + " input)"), why), rep, key=key)
+    return {"cases": n, "failed": bad}
+
+
 def run_conn_codec(ctx, d, msgs, tier):
     """Driver B: returns (coverage dict, number of frames TLC accepted, TLC states, TLC transitions); reports violations."""
     apiname = {m["apiKey"]: m["api"] for m in msgs if m["kind"] == "request"}
@@ -471,6 +517,7 @@ def run_c04(ctx):
             results.append(f.result())
         conn_cov, conn_ok, conn_states, conn_trans = futb.result()
     states_b, trans_b = conn_states, conn_trans
+    marshal_cov = run_marshal(ctx, d, [("default", vh), ("unsafe", vhu)])
     total = sum(r["n"] for r in results)
     states = sum(r["chk"]["distinct"] + r["gen"]["distinct"] for r in results)
     trans = sum(r["chk"]["generated"] + r["gen"]["generated"] for r in results)
@@ -560,7 +607,7 @@ def run_c04(ctx):
     for s in (sample_src[0], sample_src[len(sample_src) // 2], sample_src[-1]):
         samples.append({"id": s["id"], "value": s["value"], "frameHex": hexs(s["frame"]), "bodyHex": hexs(s["frame"][s["hdr"]:]), "mode": s["mode"]})
     return {"engine": "wire", "states": states + states_b, "transitions": trans + trans_b, "traces_validated_against_impl": 2 * (total - nbad) + conn_ok,
-            "conn_codec": conn_cov, "vectors": total, "vectors_with_failed_clause": nbad,
+            "conn_codec": conn_cov, "marshal_history": marshal_cov, "vectors": total, "vectors_with_failed_clause": nbad,
             # SafeDecode(Encode(value)) = value, evaluated by TLC on every generated vector (consistency of the specification itself)
             "spec_roundtrip_checked": sum(r["spec_rt"] for r in results), "builds": ["default", "unsafe"],
             "targets": len(tg), "rows_round_trip": nrt, "rows_decode_only": ndec, "rows_nil_as_empty": nnil, "salts": salts,
